@@ -48,7 +48,10 @@ class KeyPool:
 
 HDR_VARIANTS = [(n, {"alg": n}) for n in ALG_NAMES] + [
     ("None", {"alg": "None"}), ("NONE", {"alg": "NONE"}), ("hs256", {"alg": "hs256"}), ("XX999", {"alg": "XX999"}),
-    ("<missing>", {"typ": "JWT"}), ("<number>", {"alg": 1}), ("<null>", {"alg": None})]
+    ("<missing>", {"typ": "JWT"}), ("<number>", {"alg": 1}), ("<null>", {"alg": None}),
+    # names other registries use for the same primitives: not names of this library's algorithms
+    ("Ed25519", {"alg": "Ed25519"}), ("Ed448", {"alg": "Ed448"}), ("ESP256", {"alg": "ESP256"}), ("ESP384", {"alg": "ESP384"}),
+    ("RS256 ", {"alg": "RS256 "}), ("PS256-", {"alg": "PS256-"})]
 
 
 def alg_attr_choices(key):
@@ -135,6 +138,11 @@ def alg_matrix(world, pool, tier, rng, sample=None, part=None):
                     v = pool.sign(name, hname, msg)
                     if v is not None:
                         sigs.append(("valid", v))
+                elif hname not in FAMILY and K.ORD_ALG.get(pin) in FAMILY and usable(key, K.ORD_ALG[pin]):
+                    # the header names no algorithm of the library, the signature is a good one under the pinned algorithm
+                    v = pool.sign(name, K.ORD_ALG[pin], msg)
+                    if v is not None:
+                        sigs.append(("valid-under-pin", v))
             for sname, sig in sigs:
                 tok = msg + b"." + sig
                 valid = sname == "valid" or (sname == "hmac-oct" and key is not None and hname in HS_MIN and usable(key, hname))
@@ -606,7 +614,8 @@ def token_bytes(world, pool, tier, rng):
     metas = []
     thorough = tier == "thorough"
     items = load_pool_keys(world, pool)
-    cfgs = [("nokey", None)] + [(n, n) for n in pool.keys] + [("nokey+claims", None), ("oct32+claims", "oct32")]
+    cfgs = [("nokey", None)] + [(n, n) for n in pool.keys] + [("nokey+claims", None), ("oct32+claims", "oct32"),
+                                                              ("nokey+cb-refuses", None), ("oct32+cb-edits", "oct32")]
     for ci, (cname, kname) in enumerate(cfgs):
         world.op("ck %d new" % ci, tag="cfg")
         if kname:
@@ -615,6 +624,11 @@ def token_bytes(world, pool, tier, rng):
         if cname.endswith("+claims"):       # every claim check the checker has is switched on
             for which in ("iss", "sub", "aud"):
                 world.op("ck %d claimset %s %s" % (ci, which, hx(b"a")), tag="cfg")
+        if cname.endswith("+cb-refuses"):      # every path out of verify with a callback installed (leaks are LSan's to report)
+            world.op("ck %d setcb cget:json:-,ret:3" % ci, tag="cfg")
+        if cname.endswith("+cb-edits"):
+            world.op("ck %d setcb cset:int:%s:5:1,hdel:-,getalg" % (ci, hx(b"exp")), tag="cfg")
+        if cname.endswith("+claims"):
             lw = 0 if kname else 60          # the unkeyed one with a leeway, so that claim +- leeway arithmetic meets extreme integers
             world.op("ck %d leeway exp %d" % (ci, lw), tag="cfg")
             world.op("ck %d leeway nbf %d" % (ci, lw), tag="cfg")
@@ -764,11 +778,22 @@ def reuse_suite(world, pool, tier, rng):
     for _ in range(300 if tier == "thorough" else 40):
         seqs.append(tuple(rng.randrange(len(alpha)) for _ in range(rng.randrange(5, 60))))
     # --- configuration that changes between calls: the key comes from a callback that is later removed or replaced
+    # a second key of the same type and algorithm: the keyring behind the callback changes between calls
+    key2 = K.Key("oct", k=os.urandom(32), bits=256)
+    it2 = world.add_key(41, key2, private=True, alg_attr="HS256")
     cfg_steps = [("setcb-key", "setcb key:%d:%d,alg:1" % it), ("setcb-none", "setcb -"), ("setcb-inert", "setcb getalg"),
-                 ("setkey", "setkey 0 %d %d" % it), ("unsetkey", "setkey 0")]
-    toks2 = [alpha[0], alpha[1], alpha[8]]      # valid, badsig, unsigned
+                 ("setkey", "setkey 0 %d %d" % it), ("unsetkey", "setkey 0"), ("setcb-key2", "setcb key:%d:%d,alg:1" % it2),
+                 ("setkey2", "setkey 0 %d %d" % it2)]
+    vmsg = alpha[0][1].rsplit(b".", 1)[0]
+    valid2 = ("valid-under-key2", vmsg + b"." + hs_sig(1, key2.k, vmsg))
+    toks2 = [alpha[0], alpha[1], alpha[8], valid2]      # valid, badsig, unsigned, valid under the second key
     hist = [h for n in range(2, 5) for h in itertools.product(range(len(cfg_steps) + len(toks2)), repeat=n)]
-    hist = rng.sample(hist, 1500 if tier == "thorough" else 300)
+    # the same token presented again after the key behind it changed, in every way of changing it
+    ks = {n: i for i, (n, _) in enumerate(cfg_steps)}
+    v1, v2 = len(cfg_steps), len(cfg_steps) + 3
+    forced = [(ks[a], t1, ks[b], t2) for a in ("setcb-key", "setkey", "setcb-key2", "setkey2") for b in ("setcb-key", "setkey", "setcb-key2", "setkey2", "setcb-none", "unsetkey")
+              for t1 in (v1, v2) for t2 in (v1, v2)]
+    hist = forced + rng.sample(hist, 1500 if tier == "thorough" else 300)
     for h in hist:
         world.op("ck 2 new", tag="cfg")
         applied = []
@@ -827,7 +852,10 @@ def callbacks_suite(world, pool, tier, rng):
              S("cset", b"aud", "str", hx(b"good"), 1), "cdel:" + hx(b"aud"), S("cset", b"sub", "str", hx(b"good"), 0),
              S("hset", b"alg", "str", hx(b"none"), 1), S("hset", b"typ", "str", hx(b"x"), 1), "hdel:" + hx(b"alg"),
              "cdel:-", "hdel:-", S("cset", b"", "json", hx(b'{"exp":99999,"iss":"good"}'), 1),
-             "cget:json:-", "hget:str:" + hx(b"alg"), "getalg"]
+             "cget:json:-", "hget:str:" + hx(b"alg"), "getalg",
+             # header members other than alg: present on the token or not, the callback may add, change or drop them
+             S("hset", b"crit", "json", hx(b'["exp"]'), 1), "hdel:" + hx(b"crit"), S("hset", b"kid", "str", hx(b"other"), 1),
+             S("hset", b"", "json", hx(b'{"crit":["b64"],"b64":false,"zip":"DEF"}'), 1)]
     maxlen = 2
     progs = [(s,) for s in steps] + ([p for p in itertools.product(steps, repeat=2)] if tier == "thorough" else
                                      rng.sample([p for p in itertools.product(steps, repeat=2)], 120))
@@ -840,6 +868,12 @@ def callbacks_suite(world, pool, tier, rng):
         msg = seg({"alg": "HS256"}) + b"." + seg(pl)
         toks.append(("signed", pl, msg + b"." + pool.sign("oct32", "HS256", msg)))
         toks.append(("unsigned", pl, mk_token({"alg": "none"}, pl)))
+    # tokens whose header carries more than alg (crit, kid, cty, a nested member)
+    for pl in payloads[:3]:
+        hd = {"alg": "HS256", "crit": ["exp"], "kid": "k", "cty": "JWT", "x": {"y": [1]}}
+        msg = seg(hd) + b"." + seg(pl)
+        toks.append(("signed", dict(pl, _hdr="crit,kid,cty,x"), msg + b"." + pool.sign("oct32", "HS256", msg)))
+        toks.append(("unsigned", dict(pl, _hdr="crit,kid"), mk_token({"alg": "none", "crit": ["exp"], "kid": "k"}, pl)))
     for cfg in cfgs:
         for signed in (True, False):
             # reference: same configuration, no callback
@@ -880,8 +914,10 @@ def callback_admission_suite(world, pool, tier, rng):
     for name, key in pool.keys.items():
         adm = key.admissible_algs()
         fam = [a for a in ALG_NAMES if a in FAMILY and FAMILY[a] == key.kty]
-        for attr in [None] + adm[:2]:
-            it = world.add_key(s, key, private=(key.kind == "oct"), alg_attr=attr)
+        # the admission table speaks of the algorithm only: use / key_ops / kid of the JWK are not part of it
+        for attr, meta_extra in [(None, None)] + [(a, None) for a in adm[:2]] + [(adm[0], {"use": "enc", "key_ops": ["encrypt", "wrapKey"], "kid": "enc-key"}),
+                                                                                (None, {"use": "enc"})]:
+            it = world.add_key(s, key, private=(key.kind == "oct"), alg_attr=attr, extra=meta_extra)
             s += 1
             attr_ord = 0 if attr is None else K.ALG_ORD[attr]
             cands = [0] + [K.ALG_ORD[a] for a in fam[:4]] + [K.ALG_ORD["HS256" if key.kty != "oct" else "RS256"]]
@@ -1074,6 +1110,21 @@ def setget_suite(world, pool, tier, rng):
             snap = PS.show_get("json", 0, m.d)
             metas.append((len(world.ops), {"kind": "setget", "op": "snapshot", "want": snap, "on": "builder-" + which}))
             world.op("bl 0 %sget json -" % which, tag="setget")
+    # an application that keeps ONE jwt_value_t across calls and only fills in what the next call needs: what the
+    # previous call left in .error must not leak into the next answer
+    world.op("valreuse 1", "echo", cmp=False, tag="cfg")
+    reuse_seqs = [p for p in itertools.product(ops, repeat=2)]
+    reuse_seqs = rng.sample(reuse_seqs, 12000 if tier == "thorough" else 2500) + \
+        [tuple(rng.choice(ops) for _ in range(rng.randrange(3, 9))) for _ in range(1500 if tier == "thorough" else 300)]
+    for si, s in enumerate(reuse_seqs):
+        which = "h" if si % 2 == 0 else "c"
+        world.op("bl 0 new", tag="cfg")
+        m = PS.PyMap()
+        for op in s:
+            want = _py_apply(m, op)
+            metas.append((len(world.ops), {"kind": "setget", "op": str(op)[:80] + " (value struct reused from the previous call)", "want": want, "on": "builder-" + which}))
+            world.op(_line("bl 0", which, op), tag="setget")
+    world.op("valreuse 0", "echo", cmp=False, tag="cfg")
     # on the jwt_t handed to callbacks (builder callback: starts from the builder's maps + iat)
     world.op("clock 1000", tag="cfg")
     cbseqs = rng.sample(seqs, 800 if tier == "thorough" else 150)
@@ -1193,7 +1244,10 @@ def builder_suite(world, pool, tier, rng):
     strs = [b"JWT", b"jwt", b"Jwt", b"jWT", b"JOSE", b"at+jwt", b"", b"none", b"NONE", b"HS256", b"hs256", b"RS256", b" JWT", b"JWT ", b"0", b"true",
             b"null", "é".encode(), b"a\"b\\c", b"https://example.com/x?y=z&w"]
     ints = ["0", "1", "-1", "5000", str(2 ** 31), str(2 ** 53 + 1), str(2 ** 63 - 1), str(-(2 ** 63))]
-    jsons = [b'["a","b"]', b'{"k":null}', b"[]", b"{}", b'[1,2.5,{"z":[]}]']
+    jsons = [b'["a","b"]', b'{"k":null}', b"[]", b"{}", b'[1,2.5,{"z":[]}]',
+             # reals that need all 17 significant digits, extremes, exponents
+             b'[0.30000000000000004,1700000000.1234567,0.1,1e-7]', b'{"r":4503599627370496.5,"m":1.7976931348623157e308,"t":5e-324}',
+             b'[123456789012345.67,-0.0,1e21,0.3333333333333333]']
     # signature lengths of every residue mod 3 (32, 48, 64 octets): the unpadded form differs in its last characters
     it64 = world.add_key(72, K.Key("oct", k=os.urandom(64), bits=512), private=True, alg_attr=None)
     for ci in range(4000 if tier == "thorough" else 400):
@@ -1320,6 +1374,14 @@ def roundtrip_suite(world, pool, tier, rng):
     world.op("clock 5000", tag="cfg")
     s = 100
     provs = ["openssl", "gnutls"]
+    poison = None
+    if "rsa2048" in pool.keys:
+        pit = world.add_key(97, pool.keys["rsa2048"], private=False, alg_attr="RS256")
+        world.op("ck 8 new", tag="cfg")
+        world.op("ck 8 setkey 0 %d %d" % pit, tag="cfg")
+        poison = {"bad_tok": seg({"alg": "RS256"}) + b"." + seg({}) + b"." + K.b64u(bytes(rng.randrange(256) for _ in range(256))).encode(),
+                  "bad_jwks": json.dumps({"keys": [{"kty": "EC", "crv": "P-256", "x": K.b64u(bytes([1] * 32)), "y": K.b64u(bytes([2] * 32))},
+                                                   {"kty": "RSA", "n": "AQAB", "e": "AA"}]}).encode()}
     for name, key in pool.keys.items():
         priv = world.add_key(s, key, private=True, alg_attr=None)
         pub = world.add_key(s + 1, key, private=(key.kind == "oct"), alg_attr=None)
@@ -1333,6 +1395,12 @@ def roundtrip_suite(world, pool, tier, rng):
                 if alg == "ES256K" and "gnutls" in (p_sign, p_ver):
                     p_sign = p_ver = "openssl"
                 simple = i >= per_key
+                if i % 7 == 3 and poison:
+                    # something fails inside the crypto library first (a refused key, a failed verification):
+                    # what is generated and verified next must not depend on it
+                    world.op("ck 8 verify " + hx(poison["bad_tok"]), cmp=False, tag="cfg")
+                    world.op("jwks 98 del", cmp=False, tag="cfg")
+                    world.load_doc(98, poison["bad_jwks"], "strn", tag="cfg")
                 claims = {"n": i} if simple else {"d": rand_tree(rng), "n": i}
                 hdr = {} if simple else {"x": rand_tree(rng, 3)}
                 if not simple and i % 2:
@@ -1366,6 +1434,31 @@ def roundtrip_suite(world, pool, tier, rng):
                                                "want_obs": want_obs}))
                 world.op("ck 0 verify @last", tag="verify")
                 world.op("clock 5000", tag="cfg")
+    # a session: ONE builder and ONE checker with a default key, a callback that picks another key for some
+    # tokens only (the kid-with-fallback pattern); every token must come out under the key in force for it
+    # and verify on the long-lived checker
+    k1p = world.add_key(s, pool.keys["oct32"], private=True, alg_attr="HS256")
+    k2p = world.add_key(s + 1, pool.keys["p256"], private=True, alg_attr="ES256")
+    k2q = world.add_key(s + 2, pool.keys["p256"], private=False, alg_attr="ES256")
+    for prov in provs:
+        world.op("prov name " + hx(prov.encode()), tag="cfg")
+        world.op("bl 5 new", tag="cfg")
+        world.op("bl 5 setkey 0 %d %d" % k1p, tag="cfg")
+        world.op("ck 5 new", tag="cfg")
+        world.op("ck 5 setkey 0 %d %d" % k1p, tag="cfg")
+        world.op("clock 5000", tag="cfg")
+        pattern = [0, 1, 0, 0, 1, 1, 0] + [rng.randrange(2) for _ in range(20 if thorough else 6)]
+        for i, over in enumerate(pattern):
+            world.op("bl 5 setcb " + ("key:%d:%d,alg:7" % k2p if over else "-"), tag="cfg")
+            world.op("ck 5 setcb " + ("key:%d:%d,alg:7" % k2q if over else "-"), tag="cfg")
+            world.op("bl 5 cset int %s %d 1" % (hx(b"n"), i), tag="cfg")
+            alg = "ES256" if over else "HS256"
+            metas.append((len(world.ops), {"kind": "gen", "hdr": JL.jenc({"alg": alg, "typ": "JWT"}), "pay": JL.jenc({"iat": 5000, "n": i}), "alg": alg,
+                                           "now": 5000, "seq": "session token %d under %s, key %s" % (i, prov, "from the callback" if over else "default"), "prog": None}))
+            world.op("bl 5 gen", tag="gen")
+            metas.append((len(world.ops), {"kind": "verify-generated", "key": "p256" if over else "oct32", "alg": alg, "sign": prov, "verify": prov,
+                                           "want_obs": None}))
+            world.op("ck 5 verify @last", tag="verify")
     world.op("prov name " + hx(b"openssl"), tag="cfg")
     return metas
 
@@ -1381,7 +1474,7 @@ def falsify_roundtrip(m, out, eo=None):
             return "token generated with %s/%s under %s is rejected by a checker holding the public half under %s" % (
                 m["key"], m["alg"], m["sign"], m["verify"])
         got = out.split(" cb=[", 1)[1].rsplit("]", 1)[0]
-        if got != m["want_obs"]:
+        if m["want_obs"] is not None and got != m["want_obs"]:
             return "header/claims read in the checker callback differ from what the builder was given plus alg/typ/iat/nbf/exp: got %s want %s" % (
                 got[:300], m["want_obs"][:300])
     return None
@@ -1450,11 +1543,16 @@ def builder_routes_suite(world, pool, tier, rng, extra_keys=None):
     allk.update(extra_keys or {})
     s = 200
     for name, key in allk.items():
-        for attr in alg_attr_choices(key):
+        for attr in alg_attr_choices(key) + ["+meta"]:
+            meta_extra = None
+            if attr == "+meta":       # the same key with use/key_ops/kid that say "encryption": admission does not look at them
+                if not key.admissible_algs():
+                    continue
+                attr, meta_extra = key.admissible_algs()[0], {"use": "enc", "key_ops": ["encrypt"], "kid": "enc-key"}
             for private in (True, False):
                 if key.kind == "oct" and not private:
                     continue
-                it = world.add_key(s, key, private=private, alg_attr=attr)
+                it = world.add_key(s, key, private=private, alg_attr=attr, extra=meta_extra)
                 s += 1
                 attr_ord = 0 if attr is None else K.ALG_ORD.get(attr, 15)
                 adm = key.admissible_algs()
@@ -1682,6 +1780,15 @@ def jwk_import_suite(world, pool, tier, rng):
         keys_.append((("oct", n), K.Key("oct", k=bytes(rng.randrange(256) for _ in range(n)), bits=8 * n)))
     s = 1000
     OPS = {"sign": 1, "verify": 2, "encrypt": 4, "decrypt": 8, "wrapKey": 16, "unwrapKey": 32, "deriveKey": 64, "deriveBits": 128}
+    # things that fail inside the crypto library shortly before a good key is imported: what an import makes of a
+    # JWK must not depend on what the process (thread) went through before
+    rsa_it = world.add_key(999, pool.keys["rsa2048"], private=False, alg_attr="RS256")
+    world.op("ck 9 new", tag="cfg")
+    world.op("ck 9 setkey 0 %d %d" % rsa_it, tag="cfg")
+    bad_tok = seg({"alg": "RS256"}) + b"." + seg({}) + b"." + K.b64u(bytes(rng.randrange(256) for _ in range(256))).encode()
+    bad_ec = {"kty": "EC", "crv": "P-256", "x": K.b64u(bytes([1] * 32)), "y": K.b64u(bytes([2] * 32))}
+    bad_rsa = {"kty": "RSA", "n": "AQAB", "e": "AA"}
+    vcount = 0
     for spec, key in keys_:
         variants = []
         for private in ((True, False) if key.kind != "oct" else (True,)):
@@ -1713,7 +1820,16 @@ def jwk_import_suite(world, pool, tier, rng):
                     if key.kind != "okp" and isinstance(jwk.get(mname), str):
                         jwk[mname] = K.b64u(b"\x00" * zeropad + K.b64u_dec(jwk[mname]))
             world.op("jwks %d del" % s, cmp=False, tag="cfg")
-            world.load_doc(s, json.dumps(jwk).encode(), "strn")
+            vcount += 1
+            idx = 0
+            if vcount % 3 == 1:
+                world.op("ck 9 verify " + hx(bad_tok), cmp=False, tag="cfg")       # a failed RSA verification first
+                world.load_doc(s, json.dumps(jwk).encode(), "strn")
+            elif vcount % 3 == 2:
+                world.load_doc(s, json.dumps({"keys": [bad_ec, bad_rsa, jwk]}).encode(), "strn")   # after two keys the library refuses
+                idx = 2
+            else:
+                world.load_doc(s, json.dumps(jwk).encode(), "strn")
             ops = 0
             for o in extra.get("key_ops", []):
                 ops |= OPS.get(o, 0)
@@ -1725,10 +1841,10 @@ def jwk_import_suite(world, pool, tier, rng):
                     "oct": hx(key.k) if key.kind == "oct" else "NULL"}
             metas.append((len(world.ops), {"kind": "import", "key": str(spec), "private": private, "alg": alg, "pad": pad, "zeropad": zeropad,
                                            "extra": sorted(extra), "want": want}))
-            world.op("jwks %d item 0" % s, tag="item")
+            world.op("jwks %d item %d" % (s, idx), tag="item")
             if key.kind != "oct":
                 metas.append((len(world.ops), {"kind": "pem", "key": str(spec), "private": private, "keyobj": key}))
-                world.op("jwks %d pem 0" % s, cmp=False, tag="item")
+                world.op("jwks %d pem %d" % (s, idx), cmp=False, tag="item")
             s += 1
             if s > 1020:
                 s = 1000
@@ -1792,10 +1908,15 @@ def keyring_suite(world, pool, tier, rng):
     good = pool.keys["oct32"].jwk(extra={"kid": "k1"})
     good2 = pool.keys["p256"].jwk(private=False, extra={"kid": "k2"})
     bad = {"kty": "oct", "k": "", "kid": "kbad"}
+    # an item that is flagged as errored although its key material was parsed and attached (non-string alg):
+    # removing it must release that material too (LeakSanitizer watches)
+    badmat = pool.keys["rsa2048"].jwk(private=True, extra={"kid": "kbm", "alg": 5})
     docs = {"good": json.dumps(good).encode(), "bad": json.dumps(bad).encode(),
-            "mixed3": json.dumps({"keys": [good2, bad, dict(good, kid="k1")]}).encode(), "nonjson": b"{nope"}
+            "mixed3": json.dumps({"keys": [good2, bad, dict(good, kid="k1")]}).encode(), "nonjson": b"{nope",
+            "badmat": json.dumps(badmat).encode()}
     # (kid, errored) per doc
-    content = {"good": [("k1", False)], "bad": [("kbad", True)], "mixed3": [("k2", False), ("kbad", True), ("k1", False)], "nonjson": None}
+    content = {"good": [("k1", False)], "bad": [("kbad", True)], "mixed3": [("k2", False), ("kbad", True), ("k1", False)], "nonjson": None,
+               "badmat": [(None, True)]}      # the values of a key whose alg is not a string are not read further: no kid
     alphabet = [("load", d) for d in docs] + [("free", 0), ("free", 1), ("free", "last"), ("free", 99), ("freebad",), ("freeall",),
                                               ("find", "k1"), ("find", "kbad"), ("find", "nope"), ("find", ""), ("errclr",)]
     maxlen = 4 if tier == "thorough" else 3
@@ -1856,7 +1977,7 @@ def keyring_suite(world, pool, tier, rng):
             if (step_no + si) % 2:
                 idxs = idxs[::-1]        # alternate ascending / descending: the first probe after a removal is sometimes a high index
             for i in idxs:
-                w = "none" if i >= len(lst) else ("kid=%s err=%d" % (hx(lst[i][0].encode()), 1 if lst[i][1] else 0))
+                w = "none" if i >= len(lst) else ("kid=%s err=%d" % (hx(lst[i][0].encode()) if lst[i][0] is not None else "NULL", 1 if lst[i][1] else 0))
                 metas.append((len(world.ops), {"kind": "kr-item", "op": "get %d" % i, "want": w}))
                 world.op("jwks %d item %d" % (S0, i), tag="kr")
     world.op("jwks %d del" % S0, cmp=False, tag="cfg")
